@@ -991,6 +991,8 @@ def seq_len_poly(ctx, t):
     """length polynomial of a slice / array / Vec / str term"""
     sy = ctx.sy
     t0 = unmut(t)
+    while t0[0] == "cast" and "Unsize" in str(t0[1]):
+        t0 = unmut(t0[2])           # `&[u8; N]` coerced to `&[u8]`: same elements
     r = sy.ev.region(t0)
     if r is not None:
         ln = r.length if r.length is not None else (r.end()[0] - r.start[0], r.end()[1] - r.start[1])
